@@ -31,9 +31,10 @@ Record scene := mkScene {
 (* ---- register writes (registers.go) ---- *)
 Definition write_bgp (v : N) : pal :=
   mkPal (N.land v 3) (N.land (N.shiftr v 2) 3) (N.land (N.shiftr v 4) 3) (N.land (N.shiftr v 6) 3).
-(* WriteOBP0 / WriteOBP1 leave entry 0 as it is *)
-Definition write_obp (old : pal) (v : N) : pal :=
-  mkPal (c0 old) (N.land (N.shiftr v 2) 3) (N.land (N.shiftr v 4) 3) (N.land (N.shiftr v 6) 3).
+(* WriteOBP0 / WriteOBP1 store all four entries, like WriteBGP (after "fix: OBP0 and OBP1 read back all eight
+   bits"); entry 0 is never displayed: colour 0 of an object is transparent *)
+Definition write_obp (v : N) : pal :=
+  mkPal (N.land v 3) (N.land (N.shiftr v 2) 3) (N.land (N.shiftr v 4) 3) (N.land (N.shiftr v 6) 3).
 Definition pal_zero : pal := mkPal 0 0 0 0.
 
 Definition flag (v m : N) : bool := 0 <? N.land v m.
@@ -65,13 +66,13 @@ Definition scene_set_oam (s : scene) (a v : N) : scene :=
    (entry 0 of the object palettes is never written: it keeps the zero of the fresh PPU) *)
 Definition scene_set_regs (s : scene) (lcdc sx sy wx_ wy_ bgp obp0 obp1 : N) : scene :=
   scene_set_pals (scene_set_window (scene_set_scroll (scene_set_lcdc s lcdc) sx sy) wx_ wy_)
-                 (write_bgp bgp) (write_obp pal_zero obp0) (write_obp pal_zero obp1).
+                 (write_bgp bgp) (write_obp obp0) (write_obp obp1).
 
 (* the registers as ppu.New leaves them (LCDC 0x91, BGP 0xFC, OBP0 = OBP1 = 0xFF), memories zeroed *)
 Definition scene_init : scene :=
   scene_set_lcdc
     (mkScene false false false false false false false 0 0 0 0
-             (write_bgp 252) (write_obp pal_zero 255) (write_obp pal_zero 255) (Mem.empty 0) (Mem.empty 0))
+             (write_bgp 252) (write_obp 255) (write_obp 255) (Mem.empty 0) (Mem.empty 0))
     145.
 
 (* ---- checked indexing ---- *)
